@@ -116,3 +116,138 @@ Proof.
     + unfold best_ok in H2. exact H2.
 Qed.
 End Scan.
+
+(* ================= the grid invariant: construction ================= *)
+Section Fold.
+Context {E : Type}.
+Variables (key : E -> nat) (val : E -> nat).
+Lemma set_nth_length {A} n (f : A -> A) l : length (set_nth n f l) = length l.
+Proof. revert n. induction l as [|x l IH]; intros [|n]; cbn; try reflexivity. rewrite IH. reflexivity. Qed.
+Lemma nth_set_nth {A} (d : A) n f l c : (n < length l)%nat ->
+  nth c (set_nth n f l) d = if Nat.eqb c n then f (nth n l d) else nth c l d.
+Proof.
+  revert n c. induction l as [|x l IH]; intros n c H; cbn in H; [lia|].
+  destruct n as [|n]; destruct c as [|c]; cbn; try reflexivity.
+  rewrite IH by lia. reflexivity.
+Qed.
+Definition place (g : list (list nat)) (e : E) := set_nth (key e) (fun l => l ++ [val e]) g.
+Lemma fold_place_length es : forall g, length (fold_left place es g) = length g.
+Proof. induction es as [|e es IH]; intros g; cbn; [reflexivity|]. rewrite IH. apply set_nth_length. Qed.
+Lemma fold_place_spec es : forall g c, (forall e, In e es -> (key e < length g)%nat) ->
+  nth c (fold_left place es g) [] = nth c g [] ++ map val (filter (fun e => Nat.eqb (key e) c) es).
+Proof.
+  induction es as [|e es IH]; intros g c H; cbn [fold_left filter map].
+  - rewrite app_nil_r. reflexivity.
+  - rewrite IH by (intros e' He'; unfold place; rewrite set_nth_length; apply H; right; exact He').
+    unfold place at 1. rewrite nth_set_nth by (apply H; left; reflexivity).
+    rewrite (Nat.eqb_sym c (key e)). destruct (Nat.eqb (key e) c) eqn:Ek.
+    + apply Nat.eqb_eq in Ek. subst c. cbn [map]. rewrite <- app_assoc. reflexivity.
+    + reflexivity.
+Qed.
+End Fold.
+
+(* the ends inserted by the constructor, in insertion order: (id, point) *)
+Definition ends_of (vs : list path) (reverse : bool) : list (nat * pt) :=
+  let n := length vs in
+  flat_map (fun ip => let '(i, p) := ip in if reverse then [(i, fst p); ((n + i)%nat, snd p)] else [(i, fst p)]) (combine (seq 0 n) vs).
+
+(* extent lemmas: the folded minimum is below every element, the maximum above *)
+Lemma fold_pymin_le l : forall x0 y, (In y l \/ y = x0) -> (fold_left pymin l x0 <= y)%Q.
+Proof.
+  induction l as [|a l IH]; intros x0 y H; cbn [fold_left].
+  - destruct H as [[] | ->]. apply Qle_refl.
+  - destruct (pymin_spec x0 a) as (M1 & M2 & _).
+    destruct H as [[<- | H] | ->].
+    + eapply Qle_trans; [apply IH; right; reflexivity|exact M2].
+    + apply IH. left. exact H.
+    + eapply Qle_trans; [apply IH; right; reflexivity|exact M1].
+Qed.
+Lemma fold_pymax_ge l : forall x0 y, (In y l \/ y = x0) -> (y <= fold_left pymax l x0)%Q.
+Proof.
+  induction l as [|a l IH]; intros x0 y H; cbn [fold_left].
+  - destruct H as [[] | ->]. apply Qle_refl.
+  - destruct (pymax_spec x0 a) as (M1 & M2 & _).
+    destruct H as [[<- | H] | ->].
+    + eapply Qle_trans; [exact M2|apply IH; right; reflexivity].
+    + apply IH. left. exact H.
+    + eapply Qle_trans; [exact M1|apply IH; right; reflexivity].
+Qed.
+Lemma fold_min_spec l m y : fold_min l = Some m -> In y l -> (m <= y)%Q.
+Proof. destruct l as [|a l]; cbn; [discriminate|]. intros H Hy. injection H as <-. apply fold_pymin_le. destruct Hy as [<- | Hy]; [right; reflexivity|left; exact Hy]. Qed.
+Lemma fold_max_spec l m y : fold_max l = Some m -> In y l -> (y <= m)%Q.
+Proof. destruct l as [|a l]; cbn; [discriminate|]. intros H Hy. injection H as <-. apply fold_pymax_ge. destruct Hy as [<- | Hy]; [right; reflexivity|left; exact Hy]. Qed.
+
+(* a coordinate inside the extent falls in a column 0..b-1 *)
+Lemma cell_coord_range v lo bs b : (0 < bs)%Q -> (lo <= v)%Q -> 1 <= b -> 0 <= cell_coord v lo bs (b - 1) <= b - 1.
+Proof.
+  intros Hbs Hv Hb. unfold cell_coord.
+  assert (0 <= Qfloor ((v - lo) / bs)).
+  { assert (Q0 : (0 <= (v - lo) / bs)%Q) by (apply Qle_shift_div_l; lra).
+    apply Qfloor_resp_le in Q0. exact Q0. }
+  lia.
+Qed.
+
+(* ---------- what the constructor builds ---------- *)
+Definition cellnat (ix : index) (p : pt) : nat := Z.to_nat (cell_of_build (bins ix) (gxmin ix) (gymin ix) (bsx ix) (bsy ix) p).
+
+Lemma ends_of_pts vs reverse e : In e (ends_of vs reverse) -> In (snd e) (ext_pts vs reverse).
+Proof.
+  unfold ends_of, ext_pts. rewrite !in_flat_map. intros ([i p] & Hin & He).
+  exists p. split; [apply in_combine_r in Hin; exact Hin|]. destruct reverse; cbn in *.
+  - destruct He as [<-|[<-|[]]]; cbn; auto.
+  - destruct He as [<-|[]]; cbn; auto.
+Qed.
+
+Theorem build_spec vs b reverse ix : 1 <= b -> build vs b reverse = Ret ix ->
+  bins ix = b /\ count ix = length vs /\ rev_ok ix = reverse /\ verts ix = vs /\
+  length (grid ix) = Z.to_nat (b * b) /\
+  (forall e, In e (ends_of vs reverse) -> (cellnat ix (snd e) < Z.to_nat (b * b))%nat) /\
+  (forall c, nth c (grid ix) [] = map fst (filter (fun e => Nat.eqb (cellnat ix (snd e)) c) (ends_of vs reverse))).
+Proof.
+  intros Hb. unfold build.
+  set (pts := ext_pts vs reverse).
+  destruct (fold_min (map fst pts)) as [x0|] eqn:Ex0; [|discriminate].
+  destruct (fold_max (map fst pts)) as [x1|] eqn:Ex1; [|discriminate].
+  destruct (fold_min (map snd pts)) as [y0|] eqn:Ey0; [|discriminate].
+  destruct (fold_max (map snd pts)) as [y1|] eqn:Ey1; [|discriminate].
+  cbv zeta.
+  set (shim := ((x1 - x0 + y1 - y0) / 200)%Q).
+  set (bx := ((x1 + shim - (x0 - shim)) / inject_Z b)%Q). set (by_ := ((y1 + shim - (y0 - shim)) / inject_Z b)%Q).
+  destruct (Qeqb bx 0 || Qeqb by_ 0) eqn:Ez; [discriminate|]. intros H. injection H as <-.
+  apply orb_false_iff in Ez. destruct Ez as [Zx Zy]. apply Qeqb_false in Zx, Zy.
+  (* extent facts *)
+  assert (Hne : pts <> []).
+  { destruct pts; [cbn in Ex0; discriminate|discriminate]. }
+  assert (P0 : exists p0, In p0 pts) by (destruct pts as [|p0 r]; [congruence|exists p0; left; reflexivity]).
+  destruct P0 as [p0 Hp0].
+  assert (X01 : (x0 <= x1)%Q).
+  { eapply Qle_trans; [apply (fold_min_spec _ _ (fst p0) Ex0), in_map, Hp0|apply (fold_max_spec _ _ (fst p0) Ex1), in_map, Hp0]. }
+  assert (Y01 : (y0 <= y1)%Q).
+  { eapply Qle_trans; [apply (fold_min_spec _ _ (snd p0) Ey0), in_map, Hp0|apply (fold_max_spec _ _ (snd p0) Ey1), in_map, Hp0]. }
+  assert (Hsh : (0 <= shim)%Q) by (unfold shim; apply Qle_shift_div_l; lra).
+  assert (Hbq : (0 < inject_Z b)%Q) by (change 0%Q with (inject_Z 0); rewrite <- Zlt_Qlt; lia).
+  assert (Bx : (0 < bx)%Q).
+  { assert (0 <= bx)%Q by (unfold bx; apply Qle_shift_div_l; [exact Hbq|lra]). destruct (Qlt_le_dec 0 bx); [assumption|]. exfalso. apply Zx. lra. }
+  assert (By : (0 < by_)%Q).
+  { assert (0 <= by_)%Q by (unfold by_; apply Qle_shift_div_l; [exact Hbq|lra]). destruct (Qlt_le_dec 0 by_); [assumption|]. exfalso. apply Zy. lra. }
+  cbn [bins count rev_ok verts grid gxmin gymin bsx bsy].
+  split; [reflexivity|]. split; [reflexivity|]. split; [reflexivity|]. split; [reflexivity|].
+  fold (ends_of vs reverse).
+  set (ix0 := mkindex b (length vs) reverse (x0 - shim)%Q (y0 - shim)%Q bx by_ vs [] []).
+  assert (CN : forall p, Z.to_nat (cell_of_build b (x0 - shim) (y0 - shim) bx by_ p) = cellnat ix0 p) by reflexivity.
+  (* every end falls in a cell of the grid *)
+  assert (RNG : forall e, In e (ends_of vs reverse) -> (cellnat ix0 (snd e) < Z.to_nat (b * b))%nat).
+  { intros e He. apply ends_of_pts in He. fold pts in He. unfold cellnat, cell_of_build. cbn [bins gxmin gymin bsx bsy ix0].
+    pose proof (cell_coord_range (fst (snd e)) (x0 - shim)%Q bx b Bx ltac:(pose proof (fold_min_spec _ _ (fst (snd e)) Ex0 (in_map fst _ _ He)); lra) Hb) as Cx.
+    pose proof (cell_coord_range (snd (snd e)) (y0 - shim)%Q by_ b By ltac:(pose proof (fold_min_spec _ _ (snd (snd e)) Ey0 (in_map snd _ _ He)); lra) Hb) as Cy.
+    nia. }
+  split; [exact (eq_trans (fold_place_length (fun e : nat * pt => cellnat ix0 (snd e)) fst (ends_of vs reverse) (repeat [] (Z.to_nat (b * b)))) (repeat_length _ _))|].
+  split; [exact RNG|].
+  intros c.
+  pose proof (fold_place_spec (fun e : nat * pt => cellnat ix0 (snd e)) fst (ends_of vs reverse) (repeat [] (Z.to_nat (b * b))) c) as FS.
+  specialize (FS ltac:(intros e He; rewrite repeat_length; apply RNG, He)).
+  assert (R0 : nth c (repeat (@nil nat) (Z.to_nat (b * b))) [] = []).
+  { clear. generalize (Z.to_nat (b * b)). intros n. revert c. induction n; intros [|c]; cbn; auto. }
+  rewrite R0 in FS. cbn [app] in FS. exact FS.
+Qed.
+
